@@ -131,7 +131,7 @@ class Tools:
             data = ''.join(json.dumps(r) + '\n' for r in batch)
             p = subprocess.run([self.pegx, '-timeout', '%ds' % timeout], input=data, capture_output=True, text=True,
                                env=dict(GOENV, GOMEMLIMIT='3GiB'))
-            lines = [json.loads(l) for l in p.stdout.splitlines() if l.strip()]
+            lines = [json.loads(l) for l in p.stdout.split('\n') if l.strip()]
             out.extend(lines)
             i += len(lines)
             if len(lines) < len(batch) and p.returncode not in (3,):
@@ -164,7 +164,7 @@ class Tools:
             p = subprocess.run([self.pegmodel, cmd], input=data, capture_output=True, text=True)
             if p.returncode != 0:
                 raise RuntimeError('pegmodel %s failed: %s' % (cmd, p.stderr[-2000:]))
-            return [json.loads(l) for l in p.stdout.splitlines() if l.strip()]
+            return [json.loads(l) for l in p.stdout.split('\n') if l.strip()]
         from concurrent.futures import ThreadPoolExecutor
         with ThreadPoolExecutor(max(1, jobs)) as ex:
             res = list(ex.map(one, chunks))
@@ -554,7 +554,7 @@ class RunModule:
                 try:
                     p = subprocess.run([self.bin], input=data, capture_output=True, text=True, timeout=timeout,
                                        env=dict(GOENV, GOMEMLIMIT='2GiB'))
-                    lines = p.stdout.splitlines()
+                    lines = p.stdout.split('\n')
                     err = p.stderr
                 except subprocess.TimeoutExpired as e:
                     lines = (e.stdout or b'').decode('utf-8', 'replace').splitlines() if isinstance(e.stdout, bytes) else (e.stdout or '').splitlines()
